@@ -102,7 +102,9 @@ Fixpoint accept_loop (sent recv last : option N) (ongoing q : list N)
         let last' := if last_accepted_is_max
                      then (match last with Some l => Some (N.max l id) | None => Some id end)
                      else Some id in
-        ([], ASome id, q', last', if ongoing_insert then set_insert id ongoing else ongoing)
+        let inserted := if ongoing_insert_is_stream then id
+                        else (match last' with Some v => v | None => id end) in
+        ([], ASome id, q', last', if ongoing_insert then set_insert inserted ongoing else ongoing)
   end.
 
 (* one poll of server::Connection::accept() (the transport never blocks a write) *)
@@ -127,7 +129,10 @@ Definition accept (s : server) : list gev * server :=
           | APending => (rej ++ [EPending], s1)
           | ANone =>
               match accept_none_shutdown with
-              | Some n => let '(w, s2) := do_shutdown s1 n in (rej ++ w ++ [ENone], s2)
+              | Some n =>
+                  if accept_none_only_if_unsent && (match s_sent s1 with Some _ => true | None => false end)
+                  then (rej ++ [ENone], s1)
+                  else let '(w, s2) := do_shutdown s1 n in (rej ++ w ++ [ENone], s2)
               | None => (rej ++ [ENone], s1)
               end
           end
